@@ -39,8 +39,11 @@ def run(ctx):
     ctx.rule("C15-R3", "form: new = clamp(old + h*HALF_TONE, MIN_LF0, MAX_LF0)")
     ctx.rule("C15-R4", "applied exactly once in the synthesis closure, to the stream of model_stream(1), before MLPG; its result is the lf0 trajectory")
     ctx.rule("C15-R5", "non-interference: condition.additional_half_tone reaches the lf0 trajectory only (not durations, spectrum, LPF, vocoder)")
+    ctx.rule("C15-R6", "the half tone that reaches the shift is the one the user set: set_additional_half_tone stores its argument unchanged on every path (the clause C20-R1 decides, stated for C15: a narrower range in the setter shifts by the wrong amount without touching the shift itself)")
     p = cm.program(ctx)
     cg = cm.callgraph(p)
+    from .c20 import check_setter
+    check_setter(ctx, p, "C15-R6", "set_additional_half_tone")
 
     check_consts(ctx, p, "C15-R1", ["constants::HALF_TONE", "constants::MIN_LF0", "constants::MAX_LF0"])
 
